@@ -331,90 +331,6 @@ package impl
 // ---- C07/C16 (thin contracts): an empty input yields empty, not an error and not a value;
 // a call whose argument count is within the registered bounds never fails with ErrWrongArity
 // because of that count
-//@ func ToBoolean(ctx, input, args) (res, err)
-//@   requires ctx != nil && validColl(input)
-//@   requires forall k int :: 0 <= k && k < len(args) ==> args[k] != nil
-//@   ensures len(input) == 0 && len(args) == 0 ==> err == nil && len(res) == 0
-//@   assigns nothing
-//
-//@ func ConvertsToBoolean(ctx, input, args) (res, err)
-//@   requires ctx != nil && validColl(input)
-//@   requires forall k int :: 0 <= k && k < len(args) ==> args[k] != nil
-//@   ensures len(input) == 0 && len(args) == 0 ==> err == nil && len(res) == 0
-//@   assigns nothing
-//
-//@ func ToInteger(ctx, input, args) (res, err)
-//@   requires ctx != nil && validColl(input)
-//@   requires forall k int :: 0 <= k && k < len(args) ==> args[k] != nil
-//@   ensures len(input) == 0 && len(args) == 0 ==> err == nil && len(res) == 0
-//@   assigns nothing
-//
-//@ func ConvertsToInteger(ctx, input, args) (res, err)
-//@   requires ctx != nil && validColl(input)
-//@   requires forall k int :: 0 <= k && k < len(args) ==> args[k] != nil
-//@   ensures len(input) == 0 && len(args) == 0 ==> err == nil && len(res) == 0
-//@   assigns nothing
-//
-//@ func ToDate(ctx, input, args) (res, err)
-//@   requires ctx != nil && validColl(input)
-//@   requires forall k int :: 0 <= k && k < len(args) ==> args[k] != nil
-//@   ensures len(input) == 0 && len(args) == 0 ==> err == nil && len(res) == 0
-//@   assigns nothing
-//
-//@ func ConvertsToDate(ctx, input, args) (res, err)
-//@   requires ctx != nil && validColl(input)
-//@   requires forall k int :: 0 <= k && k < len(args) ==> args[k] != nil
-//@   ensures len(input) == 0 && len(args) == 0 ==> err == nil && len(res) == 0
-//@   assigns nothing
-//
-//@ func ToDateTime(ctx, input, args) (res, err)
-//@   requires ctx != nil && validColl(input)
-//@   requires forall k int :: 0 <= k && k < len(args) ==> args[k] != nil
-//@   ensures len(input) == 0 && len(args) == 0 ==> err == nil && len(res) == 0
-//@   assigns nothing
-//
-//@ func ConvertsToDateTime(ctx, input, args) (res, err)
-//@   requires ctx != nil && validColl(input)
-//@   requires forall k int :: 0 <= k && k < len(args) ==> args[k] != nil
-//@   ensures len(input) == 0 && len(args) == 0 ==> err == nil && len(res) == 0
-//@   assigns nothing
-//
-//@ func ToDecimal(ctx, input, args) (res, err)
-//@   requires ctx != nil && validColl(input)
-//@   requires forall k int :: 0 <= k && k < len(args) ==> args[k] != nil
-//@   ensures len(input) == 0 && len(args) == 0 ==> err == nil && len(res) == 0
-//@   assigns nothing
-//
-//@ func ConvertsToDecimal(ctx, input, args) (res, err)
-//@   requires ctx != nil && validColl(input)
-//@   requires forall k int :: 0 <= k && k < len(args) ==> args[k] != nil
-//@   ensures len(input) == 0 && len(args) == 0 ==> err == nil && len(res) == 0
-//@   assigns nothing
-//
-//@ func ToString(ctx, input, args) (res, err)
-//@   requires ctx != nil && validColl(input)
-//@   requires forall k int :: 0 <= k && k < len(args) ==> args[k] != nil
-//@   ensures len(input) == 0 && len(args) == 0 ==> err == nil && len(res) == 0
-//@   assigns nothing
-//
-//@ func ConvertsToString(ctx, input, args) (res, err)
-//@   requires ctx != nil && validColl(input)
-//@   requires forall k int :: 0 <= k && k < len(args) ==> args[k] != nil
-//@   ensures len(input) == 0 && len(args) == 0 ==> err == nil && len(res) == 0
-//@   assigns nothing
-//
-//@ func ToTime(ctx, input, args) (res, err)
-//@   requires ctx != nil && validColl(input)
-//@   requires forall k int :: 0 <= k && k < len(args) ==> args[k] != nil
-//@   ensures len(input) == 0 && len(args) == 0 ==> err == nil && len(res) == 0
-//@   assigns nothing
-//
-//@ func ConvertsToTime(ctx, input, args) (res, err)
-//@   requires ctx != nil && validColl(input)
-//@   requires forall k int :: 0 <= k && k < len(args) ==> args[k] != nil
-//@   ensures len(input) == 0 && len(args) == 0 ==> err == nil && len(res) == 0
-//@   assigns nothing
-//
 //@ func Upper(ctx, input, args) (res, err)
 //@   requires ctx != nil && validColl(input)
 //@   requires forall k int :: 0 <= k && k < len(args) ==> args[k] != nil
@@ -455,18 +371,6 @@ package impl
 //@   requires ctx != nil && validColl(input)
 //@   requires forall k int :: 0 <= k && k < len(args) ==> args[k] != nil
 //@   ensures len(input) == 0 && len(args) == 0 ==> err == nil && len(res) == 0
-//@   assigns nothing
-//
-//@ func ToQuantity(ctx, input, args) (res, err)
-//@   requires ctx != nil && validColl(input)
-//@   requires forall k int :: 0 <= k && k < len(args) ==> args[k] != nil
-//@   ensures len(input) == 0 && 0 <= len(args) && len(args) <= 1 ==> err == nil && len(res) == 0
-//@   assigns nothing
-//
-//@ func ConvertsToQuantity(ctx, input, args) (res, err)
-//@   requires ctx != nil && validColl(input)
-//@   requires forall k int :: 0 <= k && k < len(args) ==> args[k] != nil
-//@   ensures len(input) == 0 && 0 <= len(args) && len(args) <= 1 ==> err == nil && len(res) == 0
 //@   assigns nothing
 //
 //@ func Join(ctx, input, args) (res, err)
@@ -613,3 +517,145 @@ package impl
 //@   requires forall k int :: 0 <= k && k < len(args) ==> args[k] != nil
 //@   ensures len(input) == 0 && len(args) == 2 ==> err == nil && len(res) == 0
 //@   assigns nothing
+//
+// ---- C13: conversion functions ------------------------------------------------------------------
+// toT: empty for an unconvertible item (not an error, not a value of another type); the result
+// is of type T; an item already of type T converts to itself (so converting twice equals
+// converting once). convertsToT is true exactly when toT is non-empty.
+//@ func ToBoolean(ctx, input, args) (res, err)
+//@   requires ctx != nil && validColl(input)
+//@   requires forall k int :: 0 <= k && k < len(args) ==> args[k] != nil
+//@   defines res == toS(0, input, args) && err == toE(0, input, args)
+//@   ensures len(input) == 0 && len(args) == 0 ==> err == nil && len(res) == 0
+//@   ensures len(input) == 1 && len(args) == 0 ==> err == nil
+//@   ensures err == nil ==> len(res) <= 1 && (len(res) == 1 ==> isKind(0, res[0]))
+//@   ensures len(input) == 1 && len(args) == 0 && fromOk(input[0]) && isKind(0, fromS(input[0])) ==> err == nil && len(res) == 1 && res[0] == fromS(input[0])
+//@   assigns nothing
+//
+//@ func ConvertsToBoolean(ctx, input, args) (res, err)
+//@   requires ctx != nil && validColl(input)
+//@   requires forall k int :: 0 <= k && k < len(args) ==> args[k] != nil
+//@   ensures len(input) == 0 && len(args) == 0 ==> err == nil && len(res) == 0
+//@   ensures len(input) == 1 && len(args) == 0 ==> err == nil && collTV(res) == ite(toE(0, input, args) == nil && len(toS(0, input, args)) > 0, TV_T, TV_F)
+//@   assigns nothing
+//
+//@ func ToInteger(ctx, input, args) (res, err)
+//@   requires ctx != nil && validColl(input)
+//@   requires forall k int :: 0 <= k && k < len(args) ==> args[k] != nil
+//@   defines res == toS(1, input, args) && err == toE(1, input, args)
+//@   ensures len(input) == 0 && len(args) == 0 ==> err == nil && len(res) == 0
+//@   ensures len(input) == 1 && len(args) == 0 ==> err == nil
+//@   ensures err == nil ==> len(res) <= 1 && (len(res) == 1 ==> isKind(1, res[0]))
+//@   ensures len(input) == 1 && len(args) == 0 && fromOk(input[0]) && isKind(1, fromS(input[0])) ==> err == nil && len(res) == 1 && res[0] == fromS(input[0])
+//@   assigns nothing
+//
+//@ func ConvertsToInteger(ctx, input, args) (res, err)
+//@   requires ctx != nil && validColl(input)
+//@   requires forall k int :: 0 <= k && k < len(args) ==> args[k] != nil
+//@   ensures len(input) == 0 && len(args) == 0 ==> err == nil && len(res) == 0
+//@   ensures len(input) == 1 && len(args) == 0 ==> err == nil && collTV(res) == ite(toE(1, input, args) == nil && len(toS(1, input, args)) > 0, TV_T, TV_F)
+//@   assigns nothing
+//
+//@ func ToDecimal(ctx, input, args) (res, err)
+//@   requires ctx != nil && validColl(input)
+//@   requires forall k int :: 0 <= k && k < len(args) ==> args[k] != nil
+//@   defines res == toS(2, input, args) && err == toE(2, input, args)
+//@   ensures len(input) == 0 && len(args) == 0 ==> err == nil && len(res) == 0
+//@   ensures len(input) == 1 && len(args) == 0 ==> err == nil
+//@   ensures err == nil ==> len(res) <= 1 && (len(res) == 1 ==> isKind(2, res[0]))
+//@   ensures len(input) == 1 && len(args) == 0 && fromOk(input[0]) && isKind(2, fromS(input[0])) ==> err == nil && len(res) == 1 && res[0] == fromS(input[0])
+//@   assigns nothing
+//
+//@ func ConvertsToDecimal(ctx, input, args) (res, err)
+//@   requires ctx != nil && validColl(input)
+//@   requires forall k int :: 0 <= k && k < len(args) ==> args[k] != nil
+//@   ensures len(input) == 0 && len(args) == 0 ==> err == nil && len(res) == 0
+//@   ensures len(input) == 1 && len(args) == 0 ==> err == nil && collTV(res) == ite(toE(2, input, args) == nil && len(toS(2, input, args)) > 0, TV_T, TV_F)
+//@   assigns nothing
+//
+//@ func ToString(ctx, input, args) (res, err)
+//@   requires ctx != nil && validColl(input)
+//@   requires forall k int :: 0 <= k && k < len(args) ==> args[k] != nil
+//@   defines res == toS(3, input, args) && err == toE(3, input, args)
+//@   ensures len(input) == 0 && len(args) == 0 ==> err == nil && len(res) == 0
+//@   ensures len(input) == 1 && len(args) == 0 ==> err == nil
+//@   ensures err == nil ==> len(res) <= 1 && (len(res) == 1 ==> isKind(3, res[0]))
+//@   ensures len(input) == 1 && len(args) == 0 && fromOk(input[0]) && isKind(3, fromS(input[0])) ==> err == nil && len(res) == 1 && res[0] == fromS(input[0])
+//@   assigns nothing
+//
+//@ func ConvertsToString(ctx, input, args) (res, err)
+//@   requires ctx != nil && validColl(input)
+//@   instantiate len(toS(3, input, args)) > 0 && validItem(toS(3, input, args)[0]) ==> From(toS(3, input, args)[0])
+//@   requires forall k int :: 0 <= k && k < len(args) ==> args[k] != nil
+//@   ensures len(input) == 0 && len(args) == 0 ==> err == nil && len(res) == 0
+//@   ensures len(input) == 1 && len(args) == 0 ==> err == nil && collTV(res) == ite(toE(3, input, args) == nil && len(toS(3, input, args)) > 0, TV_T, TV_F)
+//@   assigns nothing
+//
+//@ func ToDate(ctx, input, args) (res, err)
+//@   requires ctx != nil && validColl(input)
+//@   requires forall k int :: 0 <= k && k < len(args) ==> args[k] != nil
+//@   defines res == toS(4, input, args) && err == toE(4, input, args)
+//@   ensures len(input) == 0 && len(args) == 0 ==> err == nil && len(res) == 0
+//@   ensures len(input) == 1 && len(args) == 0 ==> err == nil
+//@   ensures err == nil ==> len(res) <= 1 && (len(res) == 1 ==> isKind(4, res[0]))
+//@   ensures len(input) == 1 && len(args) == 0 && fromOk(input[0]) && isKind(4, fromS(input[0])) ==> err == nil && len(res) == 1 && res[0] == fromS(input[0])
+//@   assigns nothing
+//
+//@ func ConvertsToDate(ctx, input, args) (res, err)
+//@   requires ctx != nil && validColl(input)
+//@   requires forall k int :: 0 <= k && k < len(args) ==> args[k] != nil
+//@   ensures len(input) == 0 && len(args) == 0 ==> err == nil && len(res) == 0
+//@   ensures len(input) == 1 && len(args) == 0 ==> err == nil && collTV(res) == ite(toE(4, input, args) == nil && len(toS(4, input, args)) > 0, TV_T, TV_F)
+//@   assigns nothing
+//
+//@ func ToDateTime(ctx, input, args) (res, err)
+//@   requires ctx != nil && validColl(input)
+//@   requires forall k int :: 0 <= k && k < len(args) ==> args[k] != nil
+//@   defines res == toS(5, input, args) && err == toE(5, input, args)
+//@   ensures len(input) == 0 && len(args) == 0 ==> err == nil && len(res) == 0
+//@   ensures len(input) == 1 && len(args) == 0 ==> err == nil
+//@   ensures err == nil ==> len(res) <= 1 && (len(res) == 1 ==> isKind(5, res[0]))
+//@   ensures len(input) == 1 && len(args) == 0 && fromOk(input[0]) && isKind(5, fromS(input[0])) ==> err == nil && len(res) == 1 && res[0] == fromS(input[0])
+//@   assigns nothing
+//
+//@ func ConvertsToDateTime(ctx, input, args) (res, err)
+//@   requires ctx != nil && validColl(input)
+//@   requires forall k int :: 0 <= k && k < len(args) ==> args[k] != nil
+//@   ensures len(input) == 0 && len(args) == 0 ==> err == nil && len(res) == 0
+//@   ensures len(input) == 1 && len(args) == 0 ==> err == nil && collTV(res) == ite(toE(5, input, args) == nil && len(toS(5, input, args)) > 0, TV_T, TV_F)
+//@   assigns nothing
+//
+//@ func ToTime(ctx, input, args) (res, err)
+//@   requires ctx != nil && validColl(input)
+//@   requires forall k int :: 0 <= k && k < len(args) ==> args[k] != nil
+//@   defines res == toS(6, input, args) && err == toE(6, input, args)
+//@   ensures len(input) == 0 && len(args) == 0 ==> err == nil && len(res) == 0
+//@   ensures len(input) == 1 && len(args) == 0 ==> err == nil
+//@   ensures err == nil ==> len(res) <= 1 && (len(res) == 1 ==> isKind(6, res[0]))
+//@   ensures len(input) == 1 && len(args) == 0 && fromOk(input[0]) && isKind(6, fromS(input[0])) ==> err == nil && len(res) == 1 && res[0] == fromS(input[0])
+//@   assigns nothing
+//
+//@ func ConvertsToTime(ctx, input, args) (res, err)
+//@   requires ctx != nil && validColl(input)
+//@   requires forall k int :: 0 <= k && k < len(args) ==> args[k] != nil
+//@   ensures len(input) == 0 && len(args) == 0 ==> err == nil && len(res) == 0
+//@   ensures len(input) == 1 && len(args) == 0 ==> err == nil && collTV(res) == ite(toE(6, input, args) == nil && len(toS(6, input, args)) > 0, TV_T, TV_F)
+//@   assigns nothing
+//
+//@ func ToQuantity(ctx, input, args) (res, err)
+//@   requires ctx != nil && validColl(input)
+//@   requires forall k int :: 0 <= k && k < len(args) ==> args[k] != nil
+//@   defines res == toS(7, input, args) && err == toE(7, input, args)
+//@   ensures len(input) == 0 && len(args) <= 1 ==> err == nil && len(res) == 0
+//@   ensures len(input) == 1 && len(args) == 0 ==> err == nil
+//@   ensures err == nil ==> len(res) <= 1 && (len(res) == 1 ==> isKind(7, res[0]))
+//@   ensures len(input) == 1 && len(args) == 0 && fromOk(input[0]) && isKind(7, fromS(input[0])) ==> err == nil && len(res) == 1 && res[0] == fromS(input[0])
+//@   assigns nothing
+//
+//@ func ConvertsToQuantity(ctx, input, args) (res, err)
+//@   requires ctx != nil && validColl(input)
+//@   requires forall k int :: 0 <= k && k < len(args) ==> args[k] != nil
+//@   ensures len(input) == 0 && len(args) <= 1 ==> err == nil && len(res) == 0
+//@   ensures len(input) == 1 && len(args) <= 1 ==> err == nil && collTV(res) == ite(toE(7, input, args) == nil && len(toS(7, input, args)) > 0, TV_T, TV_F)
+//@   assigns nothing
+//
